@@ -55,6 +55,11 @@ fn near_miss_names() -> Vec<Vec<u8>> {
         name[pos] = 0xff;
         names.push(name);
     }
+    // exactly 24 BYTES but not 24 characters: a 2-, 3- or 4-byte character straddling every
+    // byte offset (slicing such a name at a fixed byte offset is not on a character boundary)
+    for name in straddling_names() {
+        names.push(name);
+    }
     // lengths: "wal-" + k digits, k = 0..=23
     for k in 0..=23 {
         let mut name = b"wal-".to_vec();
@@ -80,6 +85,23 @@ fn near_miss_names() -> Vec<Vec<u8>> {
     names.sort();
     names.dedup();
     names.retain(|name| !name.is_empty() && name.as_slice() != VALID && !name.contains(&b'/') && !name.contains(&0));
+    names
+}
+
+/// Names of exactly 24 bytes in which one multi-byte character replaces 2, 3 or 4 bytes of a
+/// valid name at every position.
+pub fn straddling_names() -> Vec<Vec<u8>> {
+    let base = b"wal-00000000000000000009".to_vec();
+    let mut names = Vec::new();
+    let chars: [&[u8]; 3] = ["\u{e9}".as_bytes(), "\u{20ac}".as_bytes(), "\u{1f4be}".as_bytes()];
+    for ch in chars {
+        for pos in 0..=base.len() - ch.len() {
+            let mut name = base.clone();
+            name.splice(pos..pos + ch.len(), ch.iter().copied());
+            assert_eq!(name.len(), 24);
+            names.push(name);
+        }
+    }
     names
 }
 
